@@ -656,6 +656,21 @@ func (c *Ctx) evalCall(env *CEnv, e *ast.CallExpr) CVal {
 			ne := *env
 			ne.inOld = true
 			return c.evalExpr(&ne, e.Args[0])
+		case "atentry":
+			// atentry(N, e): the value of e when loop N was entered (the state before its first iteration)
+			k := c.evalExpr(env, e.Args[0])
+			if k.K == nil {
+				cerr("atentry: loop ordinal must be a constant")
+			}
+			n, _ := constant.Int64Val(k.K)
+			he := c.loopEntryEnv[int(n)]
+			if he == nil {
+				cerr("atentry(%d, ...): loop %d has not been entered", n, n)
+			}
+			ne := *he
+			ne.bound = env.bound
+			ne.depth = env.depth
+			return c.evalExpr(&ne, e.Args[1])
 		case "athead":
 			// athead(N, e): the value of e at the head of the current iteration of the enclosing loop N (for the
 			// invariants and measures of loops nested inside it: "progress since the outer iteration began")
